@@ -40,6 +40,12 @@ func checkC09(ctx *Ctx, r *Report) {
 	c17Paths(ctx, r)
 	inProgressRestored(ctx, r, []string{"internal/jennies/golang/validation.go"}, 1)
 	c09StaleLoopState(ctx, r, []string{"internal/veneers/option", "internal/veneers/builder", "internal/ast", "internal/languages"}, 20)
+	c09RatExactness(ctx, r)
+	if ts, err := loadTemplates(ctx, "golang"); err == nil {
+		checkLoopDepth(ctx, r, ts, recValidate)
+		c08RuneLengths(ctx, r, ts)
+	}
+	c17MergedPathsPrefixed(ctx, r)
 }
 
 // (1a) order of derivation, veneers, nil checks
@@ -554,7 +560,7 @@ func c09BoundAgreement(ctx *Ctx, r *Report) {
 		}
 	}
 	r.Count("bound-to-constraint blocks in the JSON-family parsers", blocks)
-	r.Floor("bound-to-constraint blocks in the JSON-family parsers", 10)
+	r.Floor("bound-to-constraint blocks in the JSON-family parsers", 6)
 }
 
 // evalWithField evaluates a presence test in which the library field `f` has the integer value v; comparisons of the
@@ -787,4 +793,55 @@ func c09StaleLoopState(ctx *Ctx, r *Report, pkgs []string, floor int) {
 	if n >= floor {
 		r.OK("flow/loop-state-fresh", "veneers and builder derivation", token.NoPos, "no loop reads, for one element, a value assigned under a condition for an earlier one")
 	}
+}
+
+// c09RatExactness: the JSON Schema library holds numeric bounds as *big.Rat; (*big.Rat).Float64 returns the nearest
+// float64 and whether the conversion was *exact*. 0.1 is not exactly representable: code that treats the second result
+// as a success flag drops every such bound from the IR. The flag may be ignored; it may not decide anything.
+func c09RatExactness(ctx *Ctx, r *Report) {
+	n := 0
+	for _, rel := range []string{"internal/jsonschema", "internal/openapi"} {
+		p := ctx.Pkg(rel)
+		if p == nil {
+			continue
+		}
+		info := p.TypesInfo
+		for _, file := range p.Syntax {
+			var fname string
+			ast.Inspect(file, func(m ast.Node) bool {
+				if fd, ok := m.(*ast.FuncDecl); ok {
+					fname = fd.Name.Name
+				}
+				as, ok := m.(*ast.AssignStmt)
+				if !ok || len(as.Lhs) != 2 || len(as.Rhs) != 1 {
+					return true
+				}
+				c, ok := ast.Unparen(as.Rhs[0]).(*ast.CallExpr)
+				if !ok {
+					return true
+				}
+				fn := callee(info, c)
+				if fn == nil || fn.FullName() != "(*math/big.Rat).Float64" {
+					return true
+				}
+				n++
+				id, _ := as.Lhs[1].(*ast.Ident)
+				used := ""
+				if id != nil && id.Name != "_" {
+					o := objOf(info, id)
+					ast.Inspect(file, func(q ast.Node) bool {
+						if u, ok := q.(*ast.Ident); ok && u != id && objOf(info, u) == o && used == "" {
+							used = exprString(u)
+						}
+						return true
+					})
+				}
+				r.Check(used == "", "frontier/rat-exactness-not-failure", fmt.Sprintf("%s.%s bound #%d", rel, fname, n), c.Pos(), "the exactness flag of Rat.Float64 decides nothing",
+					fmt.Sprintf("%s.%s reads the second result of (*big.Rat).Float64 (`%s`): it says whether the conversion is exact, not whether it succeeded — bounds like 0.1 or 0.9 are not exact and would be dropped: values outside them pass Validate()", rel, fname, used))
+				return true
+			})
+		}
+	}
+	r.Count("conversions of rational bounds", n)
+	r.Floor("conversions of rational bounds", 1)
 }
